@@ -11,6 +11,7 @@ import EPV.Proto
 import EPV.Spec.SetSpec
 import EPV.Model.CharSubsetParse
 import EPV.Spec.CharGroupStrict
+import EPV.Gen.C13Blocks
 open EPV.Proto EPV.USet
 
 def parseEntry (s : String) : Option CP :=
@@ -122,7 +123,32 @@ def strSet (s : List Nat) : List CP :=
   | .error => []
   | .unspec => (iterparse s.toArray).getD []
 
+/-! block-table histories (`EPV.BlockBuild`).  Request `BH <ev> <ev> …` with `i<x.y.z>` (install),
+`b<name id>` (block look-up), `c` (category look-up).  Answer
+`<model view: run with copy>#<spec view: blocksFor of the last installed version>#<view of the aliasing (no-copy) variant>#<same|mutated: the shared base after the run with copy>` -/
+open EPV.BlockBuild EPV.Gen.C13Blocks in
+def answerBH (line : String) : String :=
+  let toks := (line.splitOn " ").filter (· ≠ "") |>.drop 1
+  let evs : Option (List Event) := toks.mapM fun t =>
+    if t.startsWith "i" then ((t.drop 1).toString.splitOn ".").mapM nat? |>.map Event.install
+    else if t.startsWith "b" then (nat? (t.drop 1).toString).map Event.lookBlock
+    else if t == "c" then some Event.lookCat else none
+  let showView (a : Option Acc) : String :=
+    match a with
+    | none => "NONE"
+    | some a => ";".intercalate ((view keys a).map fun (n, v) =>
+        s!"{n}=" ++ (match v with | some l => showEntries l | none => "KEYERR"))
+  match evs with
+  | none => "bad-events"
+  | some evs =>
+    let p := runEvents true items { shared := base, installed := none } evs
+    let m := showView (p.installed.map (·.acc))
+    let s := showView ((lastInstall evs).map (blocksFor base items))
+    let a := showView (tableAfter false base items evs)
+    s!"{m}#{s}#{a}#{if p.shared == base then "same" else "mutated"}"
+
 def answer (line : String) : String :=
+  if line.startsWith "BH" then answerBH line else
   let fs := fields line
   match (field fs "W").splitOn ",", parseEntries (field fs "I") with
   | [b, n], some init =>
